@@ -61,6 +61,10 @@ type C18BPCase struct {
 	// (if it starts one: warm, stale cache) is held inside the store's ListBacklogTrend until the
 	// reload has been carried out, and completes before the first post-reload request.
 	Hold bool `json:"hold,omitempty"`
+	// InFlight: no request precedes the reload; instead the first request of the process is in flight
+	// across it - it waits inside the controller's first (synchronous) Stats call while the reload is
+	// carried out. Its answer must be the old configuration's or the new one's.
+	InFlight bool `json:"in_flight,omitempty"`
 }
 
 // bpHoldStore is the world's memory store with a gate in front of the trend listing.
@@ -70,6 +74,18 @@ type bpHoldStore struct {
 	entered chan struct{}
 	release chan struct{}
 	listed  chan struct{}
+
+	holdStats    atomic.Bool
+	enteredStats chan struct{}
+	releaseStats chan struct{}
+}
+
+func (s *bpHoldStore) Stats() (queue.Stats, error) {
+	if s.holdStats.CompareAndSwap(true, false) {
+		s.enteredStats <- struct{}{}
+		<-s.releaseStats
+	}
+	return s.MemoryStore.Stats()
 }
 
 func (s *bpHoldStore) ListBacklogTrend(req queue.BacklogTrendListRequest) (queue.BacklogTrendListResponse, error) {
@@ -179,6 +195,15 @@ func genC18BPCase() *rapid.Generator[C18BPCase] {
 			// the last pre-reload request meets a warm cache that is older than a second
 			c.PreMs = append(c.PreMs, rapid.SampledFrom([]int{1100, 2500}).Draw(t, "hold_ms"))
 		}
+		if !c.Hold && rapid.IntRange(0, 3).Draw(t, "in_flight") == 0 {
+			c.InFlight, c.PreMs = true, nil
+			if rapid.Bool().Draw(t, "switch_off") {
+				// the controller is switched off by the reload while other values of its block change too
+				c.Old.Enabled, c.New.Enabled = true, false
+				c.Old.MinTotal, c.New.MinTotal = 100000, 1
+				c.New.Invalid = false
+			}
+		}
 		return c
 	})
 }
@@ -190,7 +215,8 @@ func bpWorld(c C18BPCase, src string) (*frontWorld, error) {
 		return nil, err
 	}
 	w.state.adaptiveController.now = w.clk.Now
-	w.state.setQueueStore(&bpHoldStore{MemoryStore: w.mem, entered: make(chan struct{}, 1), release: make(chan struct{}), listed: make(chan struct{})})
+	w.state.setQueueStore(&bpHoldStore{MemoryStore: w.mem, entered: make(chan struct{}, 1), release: make(chan struct{}), listed: make(chan struct{}),
+		enteredStats: make(chan struct{}, 1), releaseStats: make(chan struct{})})
 	seq := 0
 	enq := func() error {
 		seq++
@@ -265,6 +291,32 @@ func runC18BP(c C18BPCase, _ bool) *fOutcome {
 	}
 	defer w.close()
 	pre, held := bpRequests(w, c.PreMs, "pre", c.Hold)
+	var inFlight chan string
+	var hs *bpHoldStore
+	if c.InFlight {
+		hs, _ = w.state.adaptiveController.store.(*bpHoldStore)
+		if hs != nil {
+			hs.holdStats.Store(true)
+			inFlight = make(chan string, 1)
+			go func() {
+				rec := serve(w.ingress, FReq{Method: "POST", Path: "/in", Host: "h", Remote: "203.0.113.9:1", Body: []byte("b")})
+				inFlight <- fmt.Sprintf("in-flight: %d %s", rec.Code, strings.TrimSpace(rec.Body.String()))
+			}()
+			select {
+			case <-hs.enteredStats:
+				out.Labels["request-in-flight-across-reload"] = true
+			case a := <-inFlight:
+				// the request did not consult the statistics (controller off): it simply came first
+				hs.holdStats.Store(false)
+				pre, inFlight = append(pre, a), nil
+			case <-time.After(5 * time.Second):
+				out.Skipped = "in-flight request neither finished nor reached the statistics call"
+				out.Labels["inconclusive-time-budget"] = true
+				hs.holdStats.Store(false)
+				return out
+			}
+		}
+	}
 	admitted := 0
 	for _, a := range pre {
 		if strings.Contains(a, ": 202") {
@@ -276,6 +328,44 @@ func runC18BP(c C18BPCase, _ bool) *fOutcome {
 		return out
 	}
 	applied := w.reload()
+	if inFlight != nil {
+		close(hs.releaseStats)
+		var got string
+		select {
+		case got = <-inFlight:
+		case <-time.After(5 * time.Second):
+			out.Skipped = "in-flight request did not finish within 5s of its release"
+			out.Labels["inconclusive-time-budget"] = true
+			return out
+		}
+		one := func(src string) (string, error) {
+			r, err := bpWorld(c, src)
+			if err != nil {
+				return "", err
+			}
+			defer r.close()
+			rec := serve(r.ingress, FReq{Method: "POST", Path: "/in", Host: "h", Remote: "203.0.113.9:1", Body: []byte("b")})
+			return fmt.Sprintf("in-flight: %d %s", rec.Code, strings.TrimSpace(rec.Body.String())), nil
+		}
+		vOld, err1 := one(oldText)
+		vNew, err2 := vOld, error(nil)
+		if applied {
+			vNew, err2 = one(newText)
+		}
+		if err1 != nil || err2 != nil {
+			out.Failure = ffail("HARNESS", "reference", 0, "%v %v", err1, err2)
+			return out
+		}
+		if got != vOld && got != vNew {
+			out.Failure = ffail("C18", "request-mixed-configuration", 0, "a request whose admission decision was waiting for the queue statistics while the reload (applied=%v) was carried out answers %q; a process entirely on the old configuration answers %q, entirely on the new one %q\nold:\n%s\nnew:\n%s", applied, got, vOld, vNew, oldText, newText)
+			return out
+		}
+		if vOld != vNew {
+			out.NonTriv = true
+		}
+		pre = append(pre, got)
+		bpQuiesce(w)
+	}
 	if held != nil {
 		// the refresh that started before the reload finishes after it
 		close(held.release)
